@@ -144,7 +144,7 @@ prop("C03",
      ["the whitelist of total callables printed in vt/rules/escape.py"], controls=["c03-narrow-handler"])
 
 prop("C04",
-     lambda tier: [checksum.rule_A6b, cli.rule_D4, GI_for("C04"), WSI_for("C04"), LDI_for("C04"), LSI_for("C04"), STALE_for("C04"), state.rule_D6_ownership, mirror.rule_B3_match, keylog.rule_D7, quic.rule_D7b, cli.rule_A6c, mirror.rule_B3_bind, escape.rule_A1,
+     lambda tier: [keylog.rule_E2_pipeline, checksum.rule_A6b, cli.rule_D4, GI_for("C04"), WSI_for("C04"), LDI_for("C04"), LSI_for("C04"), STALE_for("C04"), state.rule_D6_ownership, mirror.rule_B3_match, keylog.rule_D7, quic.rule_D7b, cli.rule_A6c, mirror.rule_B3_bind, escape.rule_A1,
                    state.rule_attr_kinds, output.rule_packet_fields, kdf.rule_B4],
      "Decides: per-flow classes keep all state on the instance — no class-level mutable attributes, mutable defaults, global writes, shared key list never mutated by "
      "flow code (D6a); both match predicates test the full 4-tuple in both orientations (B3); secrets are selected by client-random equality on normalised case (D7); "
@@ -189,7 +189,7 @@ prop("C08",
      ["C18 (determinism) assumed"], controls=["c08-lookahead"])
 
 prop("C09",
-     lambda tier: [kdf.rule_T6, GI_for("C09"), WSI_for("C09"), LDI_for("C09"), LSI_for("C09"), keylog.rule_E2_grammar, keylog.rule_E2_pipeline, keylog.rule_E2_cli, keylog.rule_D7, pcapng.rule_T9_pcapng, tcp.rule_full_scans, pcapng.rule_E3],
+     lambda tier: [state.rule_D6_ownership, kdf.rule_T6, GI_for("C09"), WSI_for("C09"), LDI_for("C09"), LSI_for("C09"), keylog.rule_E2_grammar, keylog.rule_E2_pipeline, keylog.rule_E2_cli, keylog.rule_D7, pcapng.rule_T9_pcapng, tcp.rule_full_scans, pcapng.rule_E3],
      "Decides: the key-log line pattern (parsed with re._parser) admits both hex cases and every label literal the consumers compare against, rejects "
      "comments/blank lines (E2a); CR is removed before splitting, file and DSB secrets share one parser and one Key construction site, DSB payloads are "
      "ingested under ts == -1 before any dispatch, the TLS secret lookup is reachable only from finalisation (E2b); -s defaults to None (E2c); secrets are "
@@ -225,7 +225,7 @@ prop("C13",
      controls=["c13-stream-under-meta"])
 
 prop("C14",
-     lambda tier: [kdf.rule_B4, GI_for("C14"), WSI_for("C14"), LDI_for("C14"), LSI_for("C14"), tables.rule_T1, tables.rule_T2, tables.rule_T3_classes],
+     lambda tier: [quic.rule_T9_hp, kdf.rule_B4, GI_for("C14"), WSI_for("C14"), LDI_for("C14"), LSI_for("C14"), tables.rule_T1, tables.rule_T2, tables.rule_T3_classes],
      "Static decision of the suite table: (T1) each of the code-point rows of the dict literal equals the IANA row of an independent "
      "registry copy; (T2) the 12-line resolver loop is read structurally (first-match in sub-table order, defaults, AES→GCM/CCM fix-up, "
      "MAC default) and every table name is resolved under exactly those semantics from the ordered literal sub-tables and compared "
